@@ -398,3 +398,320 @@ Proof.
   - exfalso. apply Hne. reflexivity.
   - exists (to_upper t). reflexivity.
 Qed.
+
+(* ================= E. host class ================= *)
+Lemma slot_exact_pred H e : in_slot (false, rev H) e = host_exact H e.
+Proof.
+  unfold in_slot, hslot, host_exact. destruct (is_wild_host (e_host e)) eqn:Ew.
+  - rewrite (hslot_wild _ Ew). reflexivity.
+  - rewrite (hslot_exact _ Ew). unfold slot_eqb. simpl. rewrite beq_rev. apply beq_sym.
+Qed.
+Lemma beq_nil_rev w : bytes_eqb [] (rev w) = is_nil w.
+Proof. destruct w as [|x w]; [reflexivity|]. simpl. destruct (rev w); reflexivity. Qed.
+Lemma slot_wild_pred k e :
+  in_slot (true, k) e = is_wild_host (e_host e) && bytes_eqb k (rev (wsuffix (e_host e))).
+Proof.
+  unfold in_slot, hslot. destruct (is_wild_host (e_host e)) eqn:Ew.
+  - rewrite (hslot_wild _ Ew). reflexivity.
+  - rewrite (hslot_exact _ Ew). reflexivity.
+Qed.
+Lemma slot_any_pred e : in_slot (true, []) e = host_any e.
+Proof. rewrite slot_wild_pred. unfold host_any. rewrite beq_nil_rev. reflexivity. Qed.
+
+Section HostClass.
+Variables (ents : list entry) (ht : htrees).
+Hypothesis Hinv : inv ents ht.
+Hypothesis Hchk : Forall (fun e => check_host (e_host e) = true) ents.
+
+Lemma wild_present e : In e ents -> is_wild_host (e_host e) = true ->
+  exists pt, In (rev (wsuffix (e_host e)), pt) (snd ht).
+Proof.
+  intros Hin Hw. destruct Hinv as (_ & _ & Hall). specialize (Hall (hslot e)).
+  unfold hslot in Hall at 1. rewrite (hslot_wild _ Hw) in Hall. unfold ht_lookup in Hall. simpl in Hall.
+  destruct (rget (rev (wsuffix (e_host e))) (snd ht)) as [pt|] eqn:Eg.
+  - exists pt. apply rget_in. exact Eg.
+  - exfalso. pose proof (filter_nil_all _ _ Hall e Hin) as Hf. unfold in_slot in Hf. rewrite slot_eqb_refl in Hf. discriminate.
+Qed.
+Lemma wild_key_entry k pt : In (k, pt) (snd ht) ->
+  rep pt (filter (in_slot (true, k)) ents) /\
+  exists e, In e ents /\ is_wild_host (e_host e) = true /\ rev (wsuffix (e_host e)) = k.
+Proof.
+  intros Hin. destruct Hinv as (_ & Hu & Hall). specialize (Hall (true, k)).
+  unfold ht_lookup in Hall. simpl in Hall. rewrite (in_rget _ _ _ Hu Hin) in Hall. destruct Hall as [Hrep Hne].
+  split; [exact Hrep|]. destruct (filter (in_slot (true, k)) ents) as [|e l] eqn:Ef; [congruence|].
+  assert (He : In e (filter (in_slot (true, k)) ents)) by (rewrite Ef; left; reflexivity).
+  apply filter_In in He. destruct He as [He1 He2]. rewrite slot_wild_pred in He2.
+  apply andb_true_iff in He2. destruct He2 as [Hw Hk]. apply bytes_eqb_eq in Hk.
+  exists e. split; [exact He1|]. split; [exact Hw|symmetry; exact Hk].
+Qed.
+Lemma key_ends_dot k pt : In (k, pt) (snd ht) -> k <> [] -> exists t, k = t ++ [DOT].
+Proof.
+  intros Hin Hne. destruct (wild_key_entry k pt Hin) as (_ & e & He & Hw & Hk).
+  rewrite Forall_forall in Hchk. specialize (Hchk e He). simpl in Hchk.
+  assert (Hws : wsuffix (e_host e) <> []) by (intros Habs; rewrite Habs in Hk; simpl in Hk; congruence).
+  destruct (checked_wild_suffix _ Hchk Hw Hws) as (t & Ht). rewrite Ht in Hk. simpl in Hk.
+  exists (rev t). symmetry. exact Hk.
+Qed.
+Lemma host_wild_iff H e : host_wild H e = true <->
+  is_wild_host (e_host e) = true /\ wsuffix (e_host e) <> [] /\ wmatch (rev H) (rev (wsuffix (e_host e))).
+Proof.
+  unfold host_wild. rewrite !andb_true_iff, negb_true_iff, one_label_wmatch. split.
+  - intros [[Hw Hn] Hm]. split; [exact Hw|]. split; [|exact Hm]. intros Habs. rewrite Habs in Hn. discriminate.
+  - intros (Hw & Hn & Hm). split; [split; [exact Hw|]|exact Hm]. destruct (wsuffix (e_host e)); [congruence|reflexivity].
+Qed.
+
+(* the pathTrees returned by hostTrees.get hold exactly the documented host class *)
+Theorem host_get_class host :
+  match host_get ht host with
+  | Some pt => rep pt (host_class ents host)
+  | None => host_class ents host = []
+  end.
+Proof.
+  unfold host_get, host_class. rewrite hkey_rev. set (H := nh host).
+  pose proof Hinv as (Hu1 & Hu2 & Hall).
+  (* exact slot *)
+  pose proof (Hall (false, rev H)) as Hex. unfold ht_lookup in Hex. simpl in Hex.
+  rewrite (filter_ext _ _ (slot_exact_pred H)) in Hex.
+  destruct (rget (rev H) (fst ht)) as [pt|] eqn:Eg.
+  { destruct Hex as [Hrep Hne]. destruct (filter (host_exact H) ents); [congruence|exact Hrep]. }
+  rewrite Hex. clear Hex Eg.
+  (* any slot *)
+  pose proof (Hall (true, [])) as Hany. unfold ht_lookup in Hany. simpl in Hany.
+  rewrite (filter_ext _ _ slot_any_pred) in Hany.
+  pose proof (lp_spec (rev H) (snd ht)) as Hlp.
+  destruct (longest_prefix (rev H) (snd ht)) as [[mp pt]|] eqn:El; simpl in Hlp.
+  - destruct Hlp as (Hin & Hpre & Hmax). simpl in Hpre.
+    apply is_prefix_spec in Hpre. destruct Hpre as (rem & Hrem).
+    assert (Hskip : skipn (length mp) (rev H) = rem).
+    { rewrite Hrem. rewrite skipn_app, Nat.sub_diag, skipn_all. reflexivity. }
+    rewrite Hskip.
+    (* every matching wildcard entry has a key that is a prefix of mp *)
+    assert (Hshort : forall e, In e ents -> host_wild H e = true ->
+              exists X, mp = rev (wsuffix (e_host e)) ++ X /\ has_dot (X ++ rem) = false /\ wsuffix (e_host e) <> []).
+    { intros e He Hw. apply host_wild_iff in Hw. destruct Hw as (Hw & Hn & (R & HR & Hd)).
+      destruct (wild_present e He Hw) as (pt' & Hin').
+      assert (Hp' : is_prefix (rev (wsuffix (e_host e))) (rev H) = true) by (apply is_prefix_spec; exists R; exact HR).
+      pose proof (Hmax _ Hin' Hp') as Hlen. simpl in Hlen.
+      rewrite Hrem in HR. symmetry in HR. destruct (common_prefix _ _ _ _ HR Hlen) as (X & HX & HRX).
+      exists X. split; [exact HX|]. split; [rewrite <- HRX; exact Hd|exact Hn]. }
+    destruct (has_dot rem) eqn:Edot.
+    + (* "*" matched several labels: fall back to the any-host key *)
+      rewrite (filter_none (host_wild H) ents).
+      * destruct (rget [] (snd ht)); [exact (proj1 Hany)|exact Hany].
+      * intros e He. destruct (host_wild H e) eqn:Ew; [|reflexivity].
+        destruct (Hshort e He Ew) as (X & _ & Hd & _). rewrite has_dot_app, Edot, orb_true_r in Hd. discriminate.
+    + assert (Hmp : mp = [] \/ mp <> []) by (destruct mp; [left; reflexivity|right; discriminate]).
+      destruct Hmp as [->|Hmpne].
+      * (* only the any-host key matches *)
+        rewrite (filter_none (host_wild H) ents).
+        -- pose proof (in_rget _ _ _ Hu2 Hin) as Hg. rewrite Hg in Hany. exact (proj1 Hany).
+        -- intros e He. destruct (host_wild H e) eqn:Ew; [|reflexivity].
+           destruct (Hshort e He Ew) as (X & HX & _ & Hn). exfalso.
+           destruct (rev (wsuffix (e_host e))) eqn:Er; [|discriminate].
+           apply Hn. apply rev_inj. rewrite Er. reflexivity.
+      * (* a single-label wildcard *)
+        destruct (wild_key_entry mp pt Hin) as (Hrep & _).
+        assert (Hsame : forall e, In e ents -> host_wild H e = in_slot (true, mp) e).
+        { intros e He. rewrite slot_wild_pred. destruct (host_wild H e) eqn:Ew.
+          - destruct (Hshort e He Ew) as (X & HX & Hd & Hn). apply host_wild_iff in Ew. destruct Ew as (Hw & _ & _).
+            rewrite Hw. rewrite andb_true_l. symmetry. apply bytes_eqb_eq. destruct X as [|x0 X'].
+            + rewrite app_nil_r in HX. exact HX.
+            + exfalso. destruct (key_ends_dot mp pt Hin Hmpne) as (t & Ht).
+              rewrite HX in Ht. rewrite has_dot_app in Hd. apply orb_false_iff in Hd. destruct Hd as [Hd _].
+              assert (Hlast : exists X0, x0 :: X' = X0 ++ [DOT]).
+              { destruct (exists_last (l := x0 :: X') ltac:(discriminate)) as (X0 & z & HXz).
+                exists X0. rewrite HXz in Ht. rewrite app_assoc in Ht. apply app_inj_tail in Ht.
+                destruct Ht as [_ ->]. exact HXz. }
+              destruct Hlast as (X0 & HX0). rewrite HX0, has_dot_app in Hd. simpl in Hd.
+              change (DOT =? DOT) with true in Hd. rewrite orb_true_r in Hd. discriminate.
+          - symmetry. apply not_true_is_false. intros Habs. apply andb_true_iff in Habs. destruct Habs as [Hw Hk].
+            apply bytes_eqb_eq in Hk.
+            assert (Ht : host_wild H e = true).
+            { apply host_wild_iff. split; [exact Hw|]. split.
+              - intros Hn. rewrite Hn in Hk. simpl in Hk. congruence.
+              - exists rem. split; [rewrite <- Hk; exact Hrem|exact Edot]. }
+            congruence. }
+        rewrite (filter_ext_in _ _ _ Hsame).
+        destruct (wild_key_entry mp pt Hin) as (_ & e0 & He0 & Hw0 & Hk0).
+        destruct (filter (in_slot (true, mp)) ents) as [|e1 l1] eqn:Ef; [|exact Hrep].
+        exfalso. pose proof (filter_nil_all _ _ Ef e0 He0) as Hf. rewrite slot_wild_pred, Hw0, Hk0, beq_refl in Hf. discriminate.
+  - (* no wildcard key is a prefix: not even the any-host key exists *)
+    rewrite (filter_none (host_wild H) ents).
+    + apply filter_none. intros e He. destruct (host_any e) eqn:Ea; [|reflexivity]. exfalso.
+      unfold host_any in Ea. apply andb_true_iff in Ea. destruct Ea as [Hw Hn].
+      destruct (wild_present e He Hw) as (pt' & Hin'). specialize (Hlp _ Hin'). simpl in Hlp.
+      destruct (wsuffix (e_host e)); [|discriminate]. simpl in Hlp. discriminate.
+    + intros e He. destruct (host_wild H e) eqn:Ew; [|reflexivity]. exfalso.
+      apply host_wild_iff in Ew. destruct Ew as (Hw & _ & (R & HR & _)).
+      destruct (wild_present e He Hw) as (pt' & Hin'). specialize (Hlp _ Hin'). simpl in Hlp.
+      assert (Hp : is_prefix (rev (wsuffix (e_host e))) (rev H) = true) by (apply is_prefix_spec; exists R; exact HR).
+      congruence.
+Qed.
+End HostClass.
+
+(* ================= F. headline and readings ================= *)
+Theorem get_refines_doc rules t host path :
+  load_rules rules = Some t -> tree_get t host path = doc_route rules host path.
+Proof.
+  intros Hl. pose proof (load_inv _ _ Hl) as Hinv.
+  pose proof (load_from_checked rules ht_empty t Hl) as Hchk.
+  unfold tree_get, doc_route. pose proof (host_get_class _ _ Hinv Hchk host) as Hc.
+  destruct (host_get t host) as [pt|].
+  - apply path_get_rep. exact Hc.
+  - rewrite Hc. reflexivity.
+Qed.
+
+(* no fallback to another host class: once a class is non-empty, the answer is decided inside it *)
+Theorem no_cross_class_fallback rules t host path :
+  load_rules rules = Some t ->
+  let ents := entries_of rules in
+  let H := nh host in
+  (filter (host_exact H) ents <> [] ->
+     tree_get t host path = path_select (filter (host_exact H) ents) path) /\
+  (filter (host_exact H) ents = [] -> filter (host_wild H) ents <> [] ->
+     tree_get t host path = path_select (filter (host_wild H) ents) path) /\
+  (filter (host_exact H) ents = [] -> filter (host_wild H) ents = [] ->
+     tree_get t host path = path_select (filter host_any ents) path).
+Proof.
+  intros Hl ents H. rewrite (get_refines_doc _ _ host path Hl). unfold doc_route, host_class.
+  fold ents. fold H. repeat split.
+  - intros Hne. destruct (filter (host_exact H) ents); [congruence|reflexivity].
+  - intros -> Hne. destruct (filter (host_wild H) ents); [congruence|reflexivity].
+  - intros -> ->. reflexivity.
+Qed.
+
+(* longest_entry, declaratively *)
+Lemma pick_fold l : forall acc,
+  match fold_left pick_longer l acc with
+  | Some e => (In e l \/ acc = Some e) /\
+              (forall e', In e' l \/ acc = Some e' -> (length (pkey (e_path e')) <= length (pkey (e_path e)))%nat)
+  | None => l = [] /\ acc = None
+  end.
+Proof.
+  induction l as [|x l IH]; intros acc; simpl.
+  - destruct acc as [b|]; [|split; reflexivity]. split; [right; reflexivity|].
+    intros e' [[]|He]. inversion He; subst. lia.
+  - specialize (IH (pick_longer acc x)). destruct (fold_left pick_longer l (pick_longer acc x)) as [e|].
+    + destruct IH as [Hin Hmax]. unfold pick_longer in *. destruct acc as [b|].
+      * destruct (Nat.ltb (length (pkey (e_path b))) (length (pkey (e_path x)))) eqn:El.
+        -- apply Nat.ltb_lt in El. split.
+           ++ destruct Hin as [Hin|Hin]; [left; right; exact Hin|]. inversion Hin; subst. left. left. reflexivity.
+           ++ intros e' [[<-|He']|He'].
+              ** apply Hmax. right. reflexivity.
+              ** apply Hmax. left. exact He'.
+              ** inversion He'; subst. assert (Hx := Hmax x (or_intror eq_refl)). lia.
+        -- apply Nat.ltb_ge in El. split.
+           ++ destruct Hin as [Hin|Hin]; [left; right; exact Hin|right; exact Hin].
+           ++ intros e' [[<-|He']|He'].
+              ** assert (Hb := Hmax b (or_intror eq_refl)). lia.
+              ** apply Hmax. left. exact He'.
+              ** apply Hmax. right. exact He'.
+      * split.
+        -- destruct Hin as [Hin|Hin]; [left; right; exact Hin|]. inversion Hin; subst. left. left. reflexivity.
+        -- intros e' [[<-|He']|He']; [apply Hmax; right; reflexivity|apply Hmax; left; exact He'|discriminate].
+    + destruct IH as [_ Habs]. unfold pick_longer in Habs. destruct acc as [b|]; [|discriminate].
+      destruct (Nat.ltb _ _); discriminate.
+Qed.
+Theorem longest_entry_spec l :
+  match longest_entry l with
+  | Some e => In e l /\ forall e', In e' l -> (length (pkey (e_path e')) <= length (pkey (e_path e)))%nat
+  | None => l = []
+  end.
+Proof.
+  unfold longest_entry. pose proof (pick_fold l None) as H. destruct (fold_left pick_longer l None) as [e|].
+  - destruct H as [[Hin|Habs] Hmax]; [|discriminate]. split; [exact Hin|]. intros e' He'. apply Hmax. left. exact He'.
+  - exact (proj1 H).
+Qed.
+(* a prefix rule matches on whole path elements: its key ends with "/" (or is empty = any path) and the
+   request path, with "/" appended when missing, starts with it *)
+Theorem path_prefix_elements path e :
+  path_prefix path e = true ->
+  (exists rest, slash_end path = pkey (e_path e) ++ rest) /\
+  (pkey (e_path e) = [] \/ exists k0, pkey (e_path e) = k0 ++ [SLASH]).
+Proof.
+  unfold path_prefix. intros H. apply andb_true_iff in H. destruct H as [_ Hp]. apply is_prefix_spec in Hp.
+  split; [exact Hp|]. unfold pkey. set (k := removelast (e_path e)).
+  destruct (negb (is_nil k) && negb (last_is SLASH k)) eqn:E.
+  - right. exists k. reflexivity.
+  - destruct k as [|x k'] eqn:Ek; [left; reflexivity|]. right. simpl in E. apply negb_false_iff in E.
+    unfold last_is in E. destruct (rev (x :: k')) as [|y r] eqn:Er; [discriminate|].
+    apply Z.eqb_eq in E. subst y. exists (rev r). apply rev_inj. rewrite rev_app_distr, rev_involutive. exact Er.
+Qed.
+
+(* ================= G. the documentation's tables (tests by vm_compute) ================= *)
+From Coq Require Import String Ascii.
+Definition b (s : string) : bytes := map (fun c => Z.of_nat (nat_of_ascii c)) (list_ascii_of_string s).
+Definition via_tree (rules : list rule) (host path : string) : option (option bytes) :=
+  option_map (fun t => tree_get t (b host) (b path)) (load_rules rules).
+Definition one (host path : string) : list rule :=
+  [mkRule (match host with EmptyString => [] | _ => [b host] end)
+          (match path with EmptyString => [] | _ => [b path] end) (b "C")].
+Definition hit := Some (Some (b "C")).
+Definition miss : option (option bytes) := Some None.
+(* route.md, host table *)
+Lemma doc_host_table :
+  via_tree (one "*" "/") "www.test1.com" "/" = hit /\
+  via_tree (one "" "/") "www.test1.com" "/" = hit /\
+  via_tree (one "*.test1.com" "") "host.test1.com" "/x" = hit /\
+  via_tree (one "*.test1.com" "") "vip.host.test1.com" "/x" = miss /\
+  via_tree (one "*.test1.com" "") "example.com" "/x" = miss /\
+  via_tree (one "*.test1.com" "") "test1.com" "/x" = miss.
+Proof. vm_compute. repeat split; reflexivity. Qed.
+(* route.md, path table (all 16 rows) *)
+Lemma doc_path_table :
+  via_tree (one "h" "*") "h" "" = hit /\ via_tree (one "h" "") "h" "" = hit /\
+  via_tree (one "h" "*") "h" "/" = hit /\ via_tree (one "h" "*") "h" "/a/b" = hit /\
+  via_tree (one "h" "/") "h" "" = miss /\ via_tree (one "h" "/") "h" "/" = hit /\ via_tree (one "h" "/") "h" "/a" = miss /\
+  via_tree (one "h" "/*") "h" "" = miss /\ via_tree (one "h" "/*") "h" "/" = hit /\ via_tree (one "h" "/*") "h" "/a" = hit /\
+  via_tree (one "h" "/*") "h" "/a/b" = hit /\ via_tree (one "h" "/*") "h" "/a/" = hit /\
+  via_tree (one "h" "/a/b/*") "h" "/a/b/c" = hit /\ via_tree (one "h" "/a/b/*") "h" "/a/b/c/d" = hit /\
+  via_tree (one "h" "/a/b/*") "h" "/a/b" = hit /\ via_tree (one "h" "/a/b/*") "h" "/a/c" = miss /\
+  via_tree (one "h" "/a/b/*") "h" "/a/" = miss.
+Proof. vm_compute. repeat split; reflexivity. Qed.
+(* route.md, the four-rule example and the demo table *)
+Definition doc_rules4 : list rule :=
+  [ mkRule [b "*.test1.com"] [] (b "StaticCluster");
+    mkRule [b "*.b.test1.com"] [b "/interface/*"] (b "PhpCluster");
+    mkRule [b "*.b.test1.com"] [b "/*"] (b "StaticCluster2");
+    mkRule [b "www.test1.com"] [b "/interface/d"] (b "PhpCluster4") ].
+Definition doc_demo : list rule :=
+  [ mkRule [b "www.a.com"] [b "/a/*"] (b "Demo-A");
+    mkRule [b "www.a.com"] [b "/a/b"] (b "Demo-B");
+    mkRule [b "*.a.com"] [b "*"] (b "Demo-C");
+    mkRule [b "www.c.com"] [b "*"] (b "ADVANCED_MODE") ].
+Lemma doc_examples :
+  via_tree doc_rules4 "vip.b.test1.com" "/interface/d" = Some (Some (b "PhpCluster")) /\
+  via_tree doc_rules4 "vip.b.test1.com" "/other" = Some (Some (b "StaticCluster2")) /\
+  via_tree doc_rules4 "www.test1.com" "/other" = Some None /\              (* exact host class, path misses: no fallback *)
+  via_tree doc_rules4 "WWW.Test1.com." "/interface/d" = Some (Some (b "PhpCluster4")) /\
+  via_tree doc_demo "www.a.com" "/a/b" = Some (Some (b "Demo-B")) /\
+  via_tree doc_demo "www.a.com" "/a/b/c" = Some (Some (b "Demo-A")) /\
+  via_tree doc_demo "www.a.com" "/ab" = Some None /\
+  via_tree doc_demo "x.a.com" "/ab" = Some (Some (b "Demo-C")) /\
+  via_tree doc_demo "www.c.com" "/" = Some (Some (b "ADVANCED_MODE")) /\
+  via_tree doc_demo "www.d.com" "/" = Some None /\
+  (* duplicates are rejected by the loader: "/foo*" and "/foo/*" have the same key *)
+  load_rules [mkRule [b "h"] [b "/foo*"; b "/foo/*"] (b "C")] = None.
+Proof. vm_compute. repeat split; reflexivity. Qed.
+
+(* ================= H. the executable property holds of the model on every well-formed input ================= *)
+From Bfe Require Import run.RunC11.
+Lemma prop_shape o x : val_eqb o x = true ->
+  match o with VL [VZ (-1); VZ _] => true | _ => val_eqb o x end = true.
+Proof.
+  intros H. destruct o as [z|bs|l]; try exact H.
+  destruct l as [|a l]; try exact H. destruct a as [z|bs|l']; try exact H.
+  destruct z as [|p|p]; try exact H. destruct p; try exact H.
+  destruct l as [|a2 l]; try exact H. destruct a2 as [z|bs|l']; try exact H.
+  destruct l; [reflexivity|exact H].
+Qed.
+Theorem prop_C11_of_model i : dec_C11 i <> None -> prop_C11 i (run_C11 i) = true.
+Proof.
+  unfold prop_C11, run_C11. destruct (dec_C11 i) as [[rules queries]|]; [|congruence]. intros _.
+  destruct (load_rules rules) as [t|] eqn:El; [|reflexivity].
+  refine (prop_shape (VL (map (fun q => enc_res (tree_get t (fst q) (snd q))) queries))
+                     (VL (map (fun q => enc_res (doc_route rules (fst q) (snd q))) queries)) _).
+  rewrite (map_ext (fun q => enc_res (tree_get t (fst q) (snd q))) (fun q => enc_res (doc_route rules (fst q) (snd q))))
+    by (intros q; rewrite (get_refines_doc _ _ _ _ El); reflexivity).
+  apply val_eqb_refl.
+Qed.
